@@ -203,6 +203,53 @@ pub fn run(ctx: &mut Ctx) {
             }
         }
     } } }
+    // ADPCM against Model.C03Adpcm, byte for byte: the encoder on generated signals (both channel counts, lengths the
+    // encoder refuses included), the decoder on the encoder's streams, on mutated streams (markers inserted, bytes
+    // flipped, truncated) and on other declared sizes
+    {
+        let n_sig = if ctx.thorough { 600 } else { 90 };
+        for k in 0..n_sig {
+            let ch = 1 + k % 2;
+            let rng = &mut ctx.rng;
+            let nbytes = match k % 9 { 0 => rng.below(9) as usize, 1 => 2 * ch * rng.range(1, 4) as usize + 1, _ => 2 * ch * rng.range(1, 60) as usize + if rng.chance(1, 12) { 2 } else { 0 } };
+            let shape = rng.below(5);
+            let mut d = Vec::with_capacity(nbytes);
+            let mut v: i32 = rng.below(65536) as i32 - 32768;
+            for i in 0..nbytes.div_ceil(2) {
+                v = match shape { 0 => v + rng.below(41) as i32 - 20, 1 => if rng.chance(1, 9) { rng.below(65536) as i32 - 32768 } else { v }, 2 => ((i as f32 * 0.3).sin() * 20000.0) as i32, 3 => if i % 2 == 0 { 32767 } else { -32768 }, _ => rng.below(65536) as i32 - 32768 }.clamp(-32768, 32767);
+                d.extend_from_slice(&(v as i16).to_le_bytes());
+            }
+            d.truncate(nbytes);
+            let m = if ch == 1 { flags::ADPCM_MONO } else { flags::ADPCM_STEREO };
+            let hx = |b: &[u8]| if b.is_empty() { "-".to_string() } else { hex(b) };
+            let enc = std::panic::catch_unwind(|| compress(&d, m));
+            let imp = match &enc { Err(_) => "panic".to_string(), Ok(Err(_)) => "err".into(), Ok(Ok(c)) => if c.len() < d.len() && c.first() == Some(&m) { hex(&c[1..]) } else { "raw".into() } };
+            ctx.out.case(&format!("c03adpcmenc {ch} {}", hx(&d)), &imp);
+            ctx.out.stat(&format!("c03.adpcm_model.enc.{}", if imp.len() > 5 { "stream" } else { imp.as_str() }));
+            let Ok(Ok(c)) = enc else { continue; };
+            if !(c.len() < d.len() && c.first() == Some(&m)) { continue; }
+            let stream = c[1..].to_vec();
+            let mut variants: Vec<(Vec<u8>, usize)> = vec![(stream.clone(), d.len())];
+            for _ in 0..5 {
+                let rng = &mut ctx.rng;
+                let mut s2 = stream.clone();
+                match rng.below(5) { 0 => { let p = rng.below(s2.len() as u64 + 1) as usize; s2.insert(p.max(2.min(s2.len())), *rng.pick(&[0x80u8, 0x81, 0x81, 0xFF, 0x7F])); }
+                    1 => { let p = rng.below(s2.len() as u64) as usize; s2[p] ^= 1 << rng.below(8); }
+                    2 => { s2.truncate(rng.below(s2.len() as u64 + 1) as usize); }
+                    3 => { if s2.len() > 1 { s2[1] = *rng.pick(&[0u8, 1, 3, 4, 7, 31, 32, 200]); } }
+                    _ => {} }
+                let size = match rng.below(4) { 0 => d.len(), 1 => d.len().saturating_sub(2 * rng.below(3) as usize), 2 => d.len() + 2 * rng.below(3) as usize, _ => d.len() + 1 };
+                variants.push((s2, size));
+            }
+            for (s2, size) in variants {
+                let r = std::panic::catch_unwind(|| decompress(&s2, m, size));
+                let imp = match r { Err(_) => Some("panic".to_string()), Ok(Ok(o)) => Some(hx(&o)),
+                    Ok(Err(e)) => { let t = e.to_string(); if t.contains("Input too small for ADPCM") || t.contains("Missing initial sample") || t.contains("Invalid ADPCM bit shift") { Some("err".into()) } else { None } } };
+                match imp { Some(i) => { ctx.out.stat(&format!("c03.adpcm_model.dec.{}", if i.len() > 5 { "bytes" } else { i.as_str() })); ctx.out.case(&format!("c03adpcmdec {ch} {} {size}", hx(&s2)), &i); }
+                    None => ctx.out.stat("c03.adpcm_model.dec.refused_by_limits") }
+            }
+        }
+    }
     // many blocks through the public decompress() in one process: every call stands alone (no budget shared between calls)
     {
         let d = vec![0u8; 2 << 20];
